@@ -109,6 +109,17 @@ theorem slim_output (cfg : Cfg) (hk : cfg.kind = .normal) (ssc : Bool) (toks : L
           rw [docPieces_slim]
           rfl
 
+/-- the slim classes are the normal classes with the other element class: with the same explicit indent argument,
+    `AdvancedHTMLSlimTagFormatter` / `…SlimTagMiniFormatter` are configured like `AdvancedHTMLFormatter` /
+    `…MiniFormatter` except for `kind` (so `slim_output` applies to the four shipped classes) -/
+theorem slim_classes (ind : IndentArg) (hi : ind ≠ .dflt) (ssc : Bool) :
+    mkCfg .slim ind ssc = { mkCfg .pretty ind ssc with kind := .slim ssc } ∧ (mkCfg .pretty ind ssc).kind = .normal
+    ∧ mkCfg .slimMini ind ssc = { mkCfg .mini ind ssc with kind := .slim ssc } ∧ (mkCfg .mini ind ssc).kind = .normal := by
+  cases ind with
+  | dflt => exact absurd rfl hi
+  | str s => simp [mkCfg, indentOf]
+  | int i => simp [mkCfg, indentOf]
+
 /-- what the surgery does to the two shapes a start tag can have -/
 theorem slim_surgery (ssc : Bool) (x : Str) :
     slimSurgery ssc (x ++ str " >") = x ++ str ">"
@@ -121,6 +132,74 @@ theorem slim_surgery (ssc : Bool) (x : Str) :
 theorem mini_no_indent (cfg : Cfg) (hm : cfg.mini = true) (c : Ctx) : indentAt cfg c = [] := by
   unfold indentAt getIndent
   by_cases h0 : c.inPre = 0 <;> simp [h0, hm]
+
+/-- C12b: a data piece outside preserved content comes out without a tab … -/
+theorem squeezed_has_no_tab (s : Str) : ∀ c ∈ squeeze s, c ≠ '\t' := squeeze_noTab s
+
+/-- … and neither begins nor ends with a line break (CR or LF). -/
+theorem squeezed_has_no_outer_line_break (s : Str) :
+    (∀ c, (squeeze s).head? = some c → isCRLF c = false) ∧ (∀ c, (squeeze s).getLast? = some c → isCRLF c = false) :=
+  squeeze_ends s
+
+/-- C12b/C12d core: the data rule is idempotent. -/
+theorem squeeze_idempotent (s : Str) : squeeze (squeeze s) = squeeze s := squeeze_idem s
+
+/-- **C12b / C12d (tree level).**  Decorating an already decorated tree changes nothing — for every class, context and
+    tree: the same elements get the same `_indent` (a function of the ancestors' names only) and every squeezed data block
+    is a fixed point of the data rule.  With `formatter_tree_is_decorated` (C11) this is "formatting the formatter's own
+    tree again gives the same tree"; for the mini classes, whose output adds no text, it is the fixed-point statement up to
+    re-tokenisation of the output (see `…_partial` below). -/
+theorem reformat_tree_fixed_point (cfg : Cfg) (c : Ctx) (p : Str) (t : Node) :
+    decorate cfg c p (decorate cfg c p t) = decorate cfg c p t := decorate_idem cfg c p t
+
+/-! #### C12d — stability from the second pass on -/
+
+/-- **C12d key lemma** (DESIGN §5).  In pass k+1 a text region is the pieces pass k wrote followed by the indent `I`
+    (a line break, then spaces/tabs) pass k put before the next tag; only the last data piece `d` (possibly empty) meets
+    `I`, the tokenizer hands the formatter `d ++ I` as one piece.  From the second pass on that piece is stable:
+    `sq (sq (d ++ I) ++ I) = sq (d ++ I)`, for every `d` and every such `I`.  (Pass 1 → 2 is not covered and not stable:
+    pass 1 sees `d`, pass 2 sees `sq d ++ I` — which is why the property says "from the second pass on".) -/
+theorem indent_piece_stable (d i : Str) (hi : IsIndent i) : squeeze (squeeze (d ++ i) ++ i) = squeeze (d ++ i) :=
+  squeeze_indent_stable d i hi
+
+/-- every `_indent` the pretty classes produce with a spaces/tabs indent unit is such an `I` -/
+theorem getIndent_isIndent (cfg : Cfg) (hm : cfg.mini = false) (hu : ∀ c ∈ cfg.indent, c = ' ' ∨ c = '\t') (level : Int) :
+    IsIndent (getIndent cfg level) := by
+  unfold getIndent
+  simp only [hm, Bool.false_eq_true, if_false]
+  refine ⟨_, rfl, ?_⟩
+  generalize level.toNat = n
+  induction n with
+  | zero => simp [rep]
+  | succ k ih =>
+    intro c hc
+    simp only [rep, List.mem_append] at hc
+    rcases hc with hc | hc
+    · exact hu c hc
+    · exact ih c hc
+
+/-!
+  #### What is partial
+
+  * `pretty_stable_partial` / `mini_fixed_point_partial` (string level, not stated as theorems): `pretty³ = pretty²` and
+    `mini (mini x) = mini x` on output *text*.  Proved here: the tree-level fixed point (`reformat_tree_fixed_point`), that
+    depth and preformatted-ness of every position depend on the tree only (`formatter_tree_is_decorated`, C11), and the two
+    facts about the one piece of text that changes between passes (`squeeze_idempotent`, `indent_piece_stable`).  Missing:
+    the character-level lexer (another group's Model/Lexer) to show that the output text tokenizes back into the tree's
+    blocks with each `_indent` glued to the preceding data piece, and the position-wise induction over the token list that
+    uses the lemmas above.  The tie runs passes 1–3 of every case through model and library and the oracle checks
+    `pass 3 = pass 2`, `mini² = mini` on the real code.
+  * C12a over the output *string* (an independent `layoutOf : text → (depth, column)*`): the tree-level law is proved
+    (`indentation_law`) together with `start_tag_after_indent` / `end_tag_after_indent`; recomputing depth from the text again
+    needs the lexer.  The oracle does exactly that on the real output with the real tokenizer.
+-/
+
+/-- Known finding `C12-mini-dropped-markup`, the instance: two data pieces that are adjacent in the *output* because the
+    markup between them was dropped (stray end tag, PI) are squeezed separately; together they are not a fixed point.
+    (`'<div> </zzz> b</div>'` → `<div >  b</div>` → `<div > b</div>`: the blank first piece becomes the leading white
+    space of the merged piece.) -/
+theorem mini_dropped_markup_counterexample :
+    squeeze (squeeze (str " ") ++ squeeze (str " b")) ≠ squeeze (str " ") ++ squeeze (str " b") := by decide
 
 /-! #### non-vacuity -/
 
